@@ -244,6 +244,7 @@ class Interp:
         """returns (status, events, real_text or None)."""
         self.events = []
         self.tainted = False
+        self.last_real = None
         node = prog
         if 'prog' in prog:
             node = prog['prog']
@@ -258,6 +259,7 @@ class Interp:
                 real, sh = self.wrap(real, sh)
             status = 'done'
             text = str(real)
+            self.last_real = real
         except Abort as a:
             status, text = a.why, None
         except CaseTimeout:
